@@ -240,6 +240,135 @@ fn fresh_build(input: &[u8], o: &Opts) -> QRBuilder {
     BuildCase::new(input.to_vec(), o.clone()).builder()
 }
 
+/// The same build on a brand-new thread: thread-local state left behind by the history cannot reach it.
+fn fresh_thread_build(input: &[u8], o: &Opts) -> Snapshot {
+    let bc = BuildCase::new(input.to_vec(), o.clone());
+    std::thread::scope(|s| {
+        std::thread::Builder::new()
+            .stack_size(16 << 20)
+            .spawn_scoped(s, move || snap_build(&bc.builder()))
+            .expect("spawn")
+            .join()
+            .unwrap_or(Snapshot { kind: 3, bytes: vec![], size: 0, fields: [-1; 4] })
+    })
+}
+
+fn snap_line(s: &Snapshot) -> String {
+    format!("{} {} {} {} {} {} {:016x}", s.kind, s.size, s.fields[0], s.fields[1], s.fields[2], s.fields[3], hash_bytes(&s.bytes))
+}
+
+/// Child-process entry `fqv __cold <case.json>`: one build in a process that has never built anything.
+pub fn cold_main(args: &[String]) -> ! {
+    let text = std::fs::read_to_string(&args[0]).unwrap_or_default();
+    let v: Value = serde_json::from_str(&text).unwrap_or(Value::Null);
+    match BuildCase::from_json(&v) {
+        Some(bc) => {
+            println!("COLD {}", snap_line(&snap_build(&bc.builder())));
+            std::process::exit(0)
+        }
+        None => std::process::exit(3),
+    }
+}
+
+static COLD_SEQ: std::sync::atomic::AtomicU64 = std::sync::atomic::AtomicU64::new(0);
+
+/// Digest of the same build in a cold child process; None when no child can be run (inside a fuzz target)
+fn cold_digest(bc: &BuildCase) -> Option<String> {
+    if std::env::var("FQV_IN_FUZZ").is_ok() {
+        return None;
+    }
+    let exe = std::env::current_exe().ok()?;
+    let dir = std::env::temp_dir().join(format!("fqv-cold-{}", std::process::id()));
+    let _ = std::fs::create_dir_all(&dir);
+    let k = COLD_SEQ.fetch_add(1, std::sync::atomic::Ordering::SeqCst);
+    let path = dir.join(format!("{}.json", k));
+    std::fs::write(&path, bc.to_json().to_string()).ok()?;
+    let out = std::process::Command::new(exe).arg("__cold").arg(&path).output().ok();
+    let _ = std::fs::remove_file(&path);
+    let out = out?;
+    let text = String::from_utf8_lossy(&out.stdout);
+    text.lines().find_map(|l| l.strip_prefix("COLD ").map(|x| x.to_string()))
+}
+
+pub fn cleanup_cold_dir() {
+    let _ = std::fs::remove_dir_all(std::env::temp_dir().join(format!("fqv-cold-{}", std::process::id())));
+}
+
+/// Does the result agree with the specification-level model (reference encoder for the values; reference capacity for
+/// the result kind; reference penalty for an automatic mask)? A disagreement is not by itself a purity violation (it
+/// may be another property's defect) but it is the trigger for asking a cold process.
+fn agrees_with_spec(bc: &BuildCase, s: &Snapshot) -> bool {
+    let mode = bc.effective_mode();
+    let level = bc.effective_level();
+    let min = min_version(level, mode, bc.input.len());
+    let want_version = match (min, bc.opts.version) {
+        (None, _) => return s.kind == 1,
+        (Some(m), None) => m,
+        (Some(m), Some(f)) if f >= m => f,
+        _ => return s.kind == 2,
+    };
+    if s.kind != 0 || s.size != size(want_version) || s.fields[0] != want_version as i64 - 1 || !(0..8).contains(&s.fields[2]) {
+        return false;
+    }
+    let mask = s.fields[2] as u8;
+    if let Some(f) = bc.opts.mask {
+        if f != mask {
+            return false;
+        }
+    }
+    let want = match refmodel::codec::build_symbol(mode, &bc.input, want_version, level, mask) {
+        Ok(w) => w,
+        Err(_) => return false,
+    };
+    let n = s.size;
+    if s.bytes.len() < n * n || (0..n * n).any(|i| (s.bytes[i] & 1 == 1) != want[i]) {
+        return false;
+    }
+    if bc.opts.mask.is_none() && n <= 57 {
+        // automatic mask: minimal under the documented penalty (format area blank or own word, see C11)
+        let g = refmodel::geom::geometry(want_version);
+        let mut best_a = u32::MAX;
+        let mut best_b = u32::MAX;
+        let mut mine = (0, 0);
+        for k in 0..8u8 {
+            let mut m = refmodel::codec::build_symbol(mode, &bc.input, want_version, level, k).unwrap_or_default();
+            let pb = refmodel::penalty::penalty(&m, want_version).total();
+            for copy in 0..2 {
+                for i in 0..15 {
+                    let (r, c) = g.format_pos[copy][i];
+                    m[r * n + c] = false;
+                }
+            }
+            let pa = refmodel::penalty::penalty(&m, want_version).total();
+            best_a = best_a.min(pa);
+            best_b = best_b.min(pb);
+            if k == mask {
+                mine = (pa, pb);
+            }
+        }
+        if mine.0 != best_a && mine.1 != best_b {
+            return false;
+        }
+    }
+    true
+}
+
+/// Purity verdict for one warm build against a cold process, asked only when needed. Ok(true) = cold process consulted.
+fn cold_verdict(bc: &BuildCase, warm: &Snapshot, always: bool, what: &str) -> Result<bool, Fail> {
+    if !always && agrees_with_spec(bc, warm) {
+        return Ok(false);
+    }
+    let Some(cold) = cold_digest(bc) else { return Ok(false) };
+    let w = snap_line(warm);
+    if cold != w {
+        return fail(
+            "history_dependent:differs_from_cold_process",
+            format!("{}: this process returns [{}] but a fresh process returns [{}] for the same input and options ({:?})", what, w, cold, bc),
+        );
+    }
+    Ok(true)
+}
+
 fn pc<T>(what: &str, f: impl FnOnce() -> T) -> Result<T, Fail> {
     catch(f).map_err(|p| Fail { sig: panic_sig(&p), msg: format!("{} panicked: {}", what, p) })
 }
@@ -281,13 +410,28 @@ pub fn check_history(h: &History, obs: &mut Obs) -> Result<(), Fail> {
                 shared.mask(f_mask(*m));
             }
             Op::BuildOther(bc) => {
-                let _ = snap_build(&bc.builder());
+                let a = snap_build(&bc.builder());
+                if cold_verdict(bc, &a, false, &format!("op {} (other builder)", i))? {
+                    obs.label("cold_process_consulted");
+                }
             }
             Op::Build => {
                 builds += 1;
                 let a = snap_build(&shared);
                 let again = snap_build(&shared);
                 let fresh = snap_build(&fresh_build(&h.input, &model));
+                let fresh_thread = fresh_thread_build(&h.input, &model);
+                ensure!(
+                    a == fresh_thread,
+                    "history_dependent:fresh_thread",
+                    "op {}: build after this history gives {:?}, the same build on a new thread gives {:?} (history {})",
+                    i, a, fresh_thread, hist_json(h)
+                );
+                // specification-level reference, and a process that has never built anything
+                let always = builds == 1 && hash_bytes(&h.input) % 8 == 0;
+                if cold_verdict(&BuildCase::new(h.input.clone(), model.clone()), &a, always, &format!("op {}", i))? {
+                    obs.label("cold_process_consulted");
+                }
                 ensure!(a == again, "rebuild_differs", "op {}: building twice on the same builder gives {:?} then {:?} (history {})", i, a, again, hist_json(h));
                 if a != fresh {
                     let what = if a.kind != fresh.kind {
@@ -388,10 +532,12 @@ pub struct Round {
     /// per thread: indices into the pool, in execution order
     pub plans: Vec<Vec<usize>>,
     pub render: bool,
+    /// every thread executes its plan this many times
+    pub repeat: usize,
 }
 
 fn round_json(r: &Round) -> Value {
-    json!({"kind": "round", "pool": r.pool.iter().map(|b| b.to_json()).collect::<Vec<_>>(), "plans": r.plans, "render": r.render})
+    json!({"kind": "round", "pool": r.pool.iter().map(|b| b.to_json()).collect::<Vec<_>>(), "plans": r.plans, "render": r.render, "repeat": r.repeat})
 }
 
 fn digest(bc: &BuildCase, render: bool) -> Result<(Snapshot, u64), String> {
@@ -430,6 +576,13 @@ pub fn check_round(r: &Round, obs: &mut Obs) -> Result<(), Fail> {
     for bc in &r.pool {
         reference.push(digest(bc, r.render).map_err(|p| Fail { sig: panic_sig(&p), msg: format!("reference build panicked: {}", p) })?);
     }
+    // the single-threaded reference itself against the specification model / a cold process
+    for (bc, d) in r.pool.iter().zip(reference.iter()) {
+        cold_verdict(bc, &d.0, false, "single-threaded reference of a concurrent round")?;
+    }
+    let reference = &reference;
+    let counted = std::sync::atomic::AtomicU64::new(0);
+    let counted = &counted;
     let threads = r.plans.len();
     let barrier = std::sync::Barrier::new(threads);
     let results: Vec<Result<Vec<(usize, Result<(Snapshot, u64), String>)>, ()>> = std::thread::scope(|s| {
@@ -443,7 +596,23 @@ pub fn check_round(r: &Round, obs: &mut Obs) -> Result<(), Fail> {
                     .stack_size(16 << 20)
                     .spawn_scoped(s, move || {
                         barrier.wait();
-                        plan.iter().map(|&i| (i, digest(&pool[i], r.render))).collect::<Vec<_>>()
+                        let mut out = Vec::new();
+                        for _ in 0..r.repeat.max(1) {
+                            for &i in plan.iter() {
+                                let d = digest(&pool[i], r.render);
+                                // keep one result per pool item unless it deviates (memory)
+                                let deviates = match (&d, &reference[i]) {
+                                    (Ok(x), y) => x != y,
+                                    (Err(_), _) => true,
+                                };
+                                if deviates || out.len() < 64 {
+                                    out.push((i, d));
+                                } else {
+                                    counted.fetch_add(1, std::sync::atomic::Ordering::Relaxed);
+                                }
+                            }
+                        }
+                        out
                     })
                     .unwrap()
             })
@@ -472,7 +641,10 @@ pub fn check_round(r: &Round, obs: &mut Obs) -> Result<(), Fail> {
         }
     }
     obs.label(&format!("threads:{}", threads));
-    obs.count("concurrent_executions", executions);
+    obs.count("concurrent_executions", executions + counted.load(std::sync::atomic::Ordering::Relaxed));
+    if r.repeat > 1 {
+        obs.label("round:tight_loop");
+    }
     if threads >= 2 {
         obs.nontrivial(crate::engine::hash_value(&round_json(r)));
     }
@@ -487,7 +659,7 @@ pub fn replay(_e: &Engine, case: &Value, obs: &mut Obs) -> Result<(), Fail> {
     if case.get("kind").and_then(|k| k.as_str()) == Some("round") {
         let pool: Vec<BuildCase> = case["pool"].as_array().ok_or_else(bad)?.iter().filter_map(BuildCase::from_json).collect();
         let plans: Vec<Vec<usize>> = case["plans"].as_array().ok_or_else(bad)?.iter().map(|p| p.as_array().map(|a| a.iter().filter_map(|x| x.as_u64().map(|y| y as usize)).collect()).unwrap_or_default()).collect();
-        let r = Round { pool, plans, render: case["render"].as_bool().unwrap_or(false) };
+        let r = Round { pool, plans, render: case["render"].as_bool().unwrap_or(false), repeat: case["repeat"].as_u64().unwrap_or(1) as usize };
         // schedules are sampled, not controlled: repeat the round a few times
         for _ in 0..20 {
             check_round(&r, obs)?;
@@ -572,7 +744,23 @@ pub fn round_strategy() -> BoxedStrategy<Round> {
     (vec(item, 2..8), prop_oneof![1 => 1usize..=1, 3 => 2usize..=16, 2 => 16usize..=16], any::<bool>())
         .prop_flat_map(|(pool, threads, render)| {
             let k = pool.len();
-            vec(vec(any::<u16>().prop_map(move |s| pick(s, k)), 1..10), threads).prop_map(move |plans| Round { pool: pool.clone(), plans, render })
+            vec(vec(any::<u16>().prop_map(move |s| pick(s, k)), 1..10), threads).prop_map(move |plans| Round { pool: pool.clone(), plans, render, repeat: 1 })
+        })
+        .boxed()
+}
+
+/// Tight loops: 8..16 threads each building the same few SMALL symbols of different versions hundreds of times,
+/// so that tens of thousands of ~30 us builds overlap (a race window of a few nanoseconds between builds of
+/// different versions needs that many attempts).
+pub fn tight_round_strategy() -> BoxedStrategy<Round> {
+    let item = (1usize..=6, 0usize..4, 0usize..3, prop_oneof![Just(None), (0u8..8).prop_map(Some)], any::<bool>()).prop_flat_map(|(v, li, mi, mask, fv)| {
+        let cell = crate::gens::Cell { version: v, level: Level::from_index(li), mode: Mode::from_index(mi) };
+        crate::gens::case_in_cell(cell, crate::gens::Force { mode: false, level: true, version: fv }, mask).prop_map(|(c, _)| c)
+    });
+    (vec(item, 2..6), prop_oneof![1 => 2usize..=8, 3 => 16usize..=16], 40usize..160)
+        .prop_flat_map(|(pool, threads, repeat)| {
+            let k = pool.len();
+            vec(vec(any::<u16>().prop_map(move |s| pick(s, k)), 2..8), threads).prop_map(move |plans| Round { pool: pool.clone(), plans, render: false, repeat })
         })
         .boxed()
 }
@@ -613,5 +801,14 @@ pub fn run(e: &'static Engine) {
             check_round(r, o)
         });
     })]);
+    let rounds: u32 = e.tier.pick(40, 600);
+    e.par(vec![Box::new(move |jc: &mut JobCtx| {
+        let strat = tight_round_strategy();
+        jc.run_prop(3 << 20, &strat, rounds, round_json, |r, o| {
+            o.label("part:tight_rounds");
+            check_round(r, o)
+        });
+    })]);
+    cleanup_cold_dir();
     e.set_exhaustive(false, "call histories and thread schedules are sampled");
 }
